@@ -139,17 +139,30 @@ def _fill(case, q, stims, k0):
             trials = trials[0]                      # scalar form of the option
         if all(d is None for d in delays):
             delays = None
-        return list(q.extend(srcs, trials, delays, durs if any(d is not None for d in durs) else None, mds))
+        keys = list(q.extend(srcs, trials, delays, durs if any(d is not None for d in durs) else None, mds))
+        _reuse(srcs)
+        return keys
+    srcs = []
     for k, st in enumerate(stims):
         kw = {'metadata': {'stim': k0 + k}}
         if st['kind'] == 'array' and st.get('explicit'):
             kw['duration'] = _dur(st, fs)
         d = _delay(st, fs)
+        srcs.append(_source(case, st, k0 + k))
         if d is None:
-            keys.append(q.append(_source(case, st, k0 + k), tr(st['trials']), **kw))
+            keys.append(q.append(srcs[-1], tr(st['trials']), **kw))
         else:
-            keys.append(q.append(_source(case, st, k0 + k), tr(st['trials']), d, **kw))
+            keys.append(q.append(srcs[-1], tr(st['trials']), d, **kw))
+    _reuse(srcs)
     return keys
+
+
+def _reuse(srcs):
+    """the caller reuses its token arrays once they are queued (one scratch buffer per token, refilled afterwards): what the
+    queue plays is the waveform that was appended"""
+    for a in srcs:
+        if isinstance(a, np.ndarray) and a.flags.writeable:
+            a[...] = -555.0
 
 
 def _queue(case):
